@@ -81,12 +81,10 @@ theorem contentGet_of_locates (dec : Nat → Bytes → Option Bytes) (f : Bytes)
           .ok (some b)
         else
           match dec t.comp (slice f start t.rawSize) with
-          | none => .panic "compression.rs: decode_to_end(...).unwrap() in the decompression pool (process abort)"
-          | some plain =>
-            if plain.length < t.dataSize then .hang
-            else do
-              let b ← blobOf t (plain.take t.dataSize) blob
-              .ok (some b)) := by
+          | none => .err .io
+          | some plain => do
+            let b ← blobOf t (plain.take t.dataSize) blob
+            .ok (some b)) := by
   obtain ⟨hd, ch, it, pt, ho, hi, hit, hpt, hb, hcl, hc⟩ := h
   unfold contentGet
   rw [ho]
@@ -512,7 +510,7 @@ theorem StoredCompressed.contentGet_eq {codec : Codec} {f : Bytes} {i : Nat} {d 
     | some plain => _) = _
   rw [hdec]
   simp only
-  rw [if_neg (by omega), ← hpl, List.take_length,
+  rw [← hpl, List.take_length,
     blobOf_of_bounds t plain blob d.length hb2 hb1 hend hle, hsl]
   rfl
 
